@@ -21,6 +21,21 @@ Verdict per query: DISCHARGED  = some encoding answered `unsat` on both z3 and c
 Witness lines (Wn) document that a precondition of the property is NECESSARY (expected `sat`); they
 never influence the exit code.
 
+Queries (negated goal => expect unsat).  tx_rx_dc, under 1 <= period < 2^32, shift <= 2^33, time any u64:
+  Q1 offset == time mod period          Q2 0 <= offset < period        Q3 `period - offset` cannot overflow
+  Q4 `(period-offset)+shift` cannot overflow and equals period - offset + shift over the integers
+  Q5 the remainder-by-zero assert cannot fail   Q6 CycleInfo{dc_system_time=time, offset, wait} exactly
+configure_dc_sync, under "range checks passed", period >= 1 ns, sys + delay < 2^64:
+  Q7 start == ((sys+delay) div period)*period   Q8 start mod period == 0   Q9 sys+delay-period < start <= sys+delay
+  Q10 no overflow/div-by-zero assert can fail    Q11 the range checks are exactly `as_nanos < 2^32` on period and delay
+  Q12 DcSyncStartTime <- start, DcSync0CycleTime <- period, HasDc{period, shift mod 2^64}
+  Q13 filter predicate == dc_support().any() && dc_sync() != Disabled (all paths of the closure)
+  Q14 activation byte 0x00, then 0x07 (Sync01) / 0x03 (otherwise); SYNC1 cycle time only for Sync01
+  Q15 dc_ref_address() == None <=> early `return Err(NoReference)` without register access
+  W1..W3 witnesses: shift unbounded / sys+delay >= 2^64 / period == 0 reach an overflow or div-by-zero panic.
+CLI: mirslice.py [--repo /repo] [--json OUT] [--timeout 60] [--jobs 6] [--keep-smt DIR]   (VERIF_SEED picks the
+random validation vectors; solver verdicts do not depend on it).  --mir FILE is a development shortcut (marked stale).
+
 Soundness assumptions of the evaluator (all documented in the --json output):
   * coroutine-state scalar fields that are stored exactly once in the function and whose address is
     never taken keep their value between slices (Rust definite initialisation + no aliasing);
